@@ -38,13 +38,15 @@ def main():
             elif api == "lw":
                 df = BayesianModelSampling(bn).likelihood_weighted_sample(evidence=ev, size=size, seed=seed, show_progress=False)
             elif api == "simulate":
-                df = bn.simulate(n_samples=size, seed=seed, show_progress=False)
+                df = bn.simulate(n_samples=size, seed=seed, show_progress=False, include_latents=job.get("latents", False))
             elif api == "simulate_missing":
                 mc = job.get("missing_columns")
                 df = bn.simulate(n_samples=size, seed=seed, show_progress=False, include_missing=True, missing_prob=job["missing_prob"],
-                                 missing_columns=None if mc is None else [pn[w] for w in mc])
+                                 missing_columns=None if mc is None else [pn[w] for w in mc if job.get("latents") or w not in (case.get("latents") or [])],
+                                 include_latents=job.get("latents", False))
             elif api == "simulate_evidence":
-                df = bn.simulate(n_samples=size, seed=seed, show_progress=False, evidence={s_.var: s_.state for s_ in ev})
+                df = bn.simulate(n_samples=size, seed=seed, show_progress=False, evidence={s_.var: s_.state for s_ in ev},
+                                 include_latents=job.get("latents", False))
             elif api == "gibbs":
                 g = GibbsSampling(bn)
                 df = g.sample(start_state=[State(pn[v], 0) for v in range(len(pn))], size=size, seed=seed)
